@@ -1,6 +1,6 @@
 (* C08 - lemmas and main theorems about coq/Wire/WireModel.v (proofs only; statements re-exported in
    Properties/Properties_C08.v). *)
-From MV Require Import Base.Bytes Gen.Consts Gen.ConstsDtls Gen.ConstsWire Dtls.DtlsModel Wire.WireModel.
+From MV Require Import Base.Bytes Gen.Consts Gen.ConstsDtls Gen.ConstsWire Dtls.DtlsModel Wire.WireModel Wire.WireSpec.
 From Coq Require Import Lia ZArith List Bool.
 Local Open Scope Z_scope.
 
@@ -101,8 +101,6 @@ Proof.
   split; [reflexivity | apply sub_list_length; lia].
 Qed.
 
-(* ------------------------------------------------------------------ heap buffers *)
-Definition written (m : fbuf) (i : Z) : Prop := exists v, nth_error m (Z.to_nat i) = Some (Some v).
 
 Lemma falloc_length : forall n, 0 <= n -> lenZ (falloc n) = n.
 Proof. intros; unfold falloc, lenZ; rewrite repeat_length; lia. Qed.
@@ -183,12 +181,7 @@ Proof.
     replace (Z.to_nat p + Z.to_nat (i - p))%nat with (Z.to_nat i) in Hv by lia. exists v; exact Hv.
 Qed.
 
-(* ================================================================== (a) record header *)
-Definition dtlsb (v : Z) : bool := band v c_v_dtls_any.
 
-Definition wf_h (x : hctx) : Prop :=
-  (hx_head x = 5 \/ hx_head x = 13) /\
-  (dtlsb (hx_actv x) = true \/ dtlsb (hx_supp x) = true -> hx_head x = 13).
 
 Lemma validate_version_actv : forall x maj mi ok a,
   validate_version x maj mi = (ok, a) -> a = hx_actv x \/ (ok = true /\ dtlsb (hx_supp x) = true).
@@ -209,15 +202,6 @@ Ltac use_be24 b lim i :=
   let v := fresh "v" in let Hv := fresh "Hv" in let Hp := fresh "Hp" in
   destruct (be24_ok b lim i) as (v & Hv & Hp); [lia | lia | lia |]; rewrite Hv; cbn [bind].
 
-Definition hdr_post (x : hctx) (c lim : Z) (r : hdr_result) : Prop :=
-  match r with
-  | HOk h => (if dtlsb (rh_actv h) then rh_used h = 13 /\ hx_head x = 13 else rh_used h = 5) /\
-             c + rh_used h <= lim /\ 0 < rh_len h <= c_SSL_MAX_RECORD_LEN /\
-             0 <= rh_epoch h /\ 0 <= rh_rsn h /\
-             (rh_actv h = hx_actv x \/ dtlsb (hx_supp x) = true)
-  | HPartial r => r = hx_head x
-  | HAlert _ a => a = hx_actv x \/ dtlsb (hx_supp x) = true
-  end.
 
 Lemma handle_record_hdr_ok : forall x b c lim,
   wf_h x -> 0 <= c -> c <= lim -> lim <= lenZ b ->
@@ -258,15 +242,7 @@ Proof.
   intros [H|H]; apply Hd; [|auto]. destruct Ha as [->|?]; auto.
 Qed.
 
-Definition wf_d (x : dctx) : Prop := wf_h (dx_h x).
 
-Definition stage_post (c lim : Z) (s : stage) : Prop :=
-  match s with
-  | SRet rc used x => c <= used <= lim /\ (rc = c_MATRIXSSL_SUCCESS \/ rc = c_DTLS_RETRANSMIT) /\ wf_d x
-  | SPartial req x => 0 < req <= c_SSL_MAX_RECORD_LEN + 13 /\ wf_d x
-  | SAlert a x => wf_d x
-  | SDecrypt off len h x => c <= off /\ 0 < len /\ off + len <= lim /\ wf_d x
-  end.
 
 Lemma stage_post_mono : forall c c' lim s, c <= c' -> stage_post c' lim s -> stage_post c lim s.
 Proof. intros c c' lim [] H; cbn; intuition lia. Qed.
@@ -379,14 +355,6 @@ Proof. eexists. split; [vm_compute; reflexivity | lia]. Qed.
 Lemma witness_ctx_wf : wf_d dtls_client_awaiting_hello.
 Proof. split; cbn; auto. Qed.
 
-(* ------------------------------------------------------------------ (a') TLS 1.3 header / CCS loop *)
-Definition stage13_post (pos lim : Z) (s : stage13) : Prop :=
-  match s with
-  | TPartial req => 0 < req <= c_SSL_MAX_BUF_SIZE + c_TLS_1_3_MAX_CIPHERTEXT_LEN + 5
-  | TAlert _ => True
-  | TCcsDone rc used => pos < used /\ used = lim /\ (rc = c_SSL_SEND_RESPONSE \/ rc = c_MATRIXSSL_SUCCESS)
-  | TRecord off len typ parsed => pos <= parsed /\ off = parsed + 5 /\ 0 < len <= c_TLS_1_3_MAX_CIPHERTEXT_LEN /\ off + len <= lim
-  end.
 
 Theorem hdr13_ok : forall fuel outp b pos lim,
   0 <= pos -> pos <= lim -> lim <= lenZ b -> lim <= c_SSL_MAX_BUF_SIZE -> lim - pos < Z.of_nat fuel ->
@@ -429,16 +397,7 @@ Definition two_ccs : bytes := [20; 3; 3; 0; 1; 1; 20; 3; 3; 0; 1; 1]%N.
 Lemma hdr13_as_found_overruns : hdr13 10 as_found false two_ccs 0 0 12 = Ok (TCcsDone c_MATRIXSSL_SUCCESS 18).
 Proof. vm_compute. reflexivity. Qed.
 
-(* ================================================================== (b) TLS <= 1.2 handshake reassembly *)
-Definition prefix_written (m : fbuf) (n : Z) : Prop := forall i, 0 <= i < n -> written m i.
 
-(* the reassembly state of a TLS / TLS 1.3 session: allocation = fragTotal, bytes [0, fragIndex) written *)
-Definition inv_tls (fr : frag) : Prop :=
-  match fr_msg fr with
-  | None => True
-  | Some m => lenZ m = fr_total fr /\ 0 <= fr_index fr <= fr_total fr /\ 1 <= fr_total fr <= c_hsLenMax + 4 /\
-              prefix_written m (fr_index fr)
-  end.
 
 Lemma hs_len_max_le : forall hs, hs_len_max hs <= c_hsLenMax.
 Proof. intros hs. unfold hs_len_max. destruct (hs =? c_SSL_HS_CLIENT_HELLO); vm_compute; congruence. Qed.
@@ -545,12 +504,6 @@ Proof.
   - unfold inv_tls. rewrite E. exact I.
 Qed.
 
-Definition msg13_post (p lim : Z) (m : msg13) : Prop :=
-  match m with
-  | MPartial p' => p < p' <= lim
-  | MDone rc p' => p <= p' <= lim
-  | MAlert _ p' => True
-  end.
 
 Lemma dispatch13_inv : forall fx o st msg p' st' m, dispatch13 fx o st msg p' = (st', m) ->
   inv_tls (t_frag st') /\ (match m with MPartial _ => False | MDone _ q => q = p' | MAlert _ _ => True end).
@@ -610,13 +563,6 @@ Proof.
       destruct mm; cbn [msg13_post]; [contradiction | subst; lia | exact I].
 Qed.
 
-Definition out13_post (p lim trailer : Z) (decrypted : bool) (r : out13) : Prop :=
-  match r with
-  | ORet rc used => (rc = c_MATRIXSSL_SUCCESS -> p < used \/ (p = lim /\ p <= used)) /\
-                    (rc = c_MATRIXSSL_SUCCESS -> used <= lim + (if decrypted then trailer else 0)) /\
-                    (rc <> c_MATRIXSSL_SUCCESS -> used = 0)
-  | OEncode _ => True
-  end.
 
 (* the loop runs on b[p, lim); the record (with its trailer when it was decrypted) ends at lim + trailer *)
 Theorem hs13_loop_ok : forall fuel o st b p0 p lim decrypted trailer,
@@ -678,13 +624,6 @@ Proof. eexists; split; [vm_compute; reflexivity | lia]. Qed.
 
 (* ================================================================== (c) DTLS handshake reassembly *)
 (* ---- intervals *)
-Notation iv := (Z * Z)%type.                       (* (offset, length) *)
-Definition iv_in (a b : Z) (h : iv) : Prop := a <= fst h /\ 0 <= snd h /\ fst h + snd h <= b.
-Definition iv_disj (h1 h2 : iv) : Prop := fst h1 + snd h1 <= fst h2 \/ fst h2 + snd h2 <= fst h1.
-Fixpoint pw_disj (l : list iv) : Prop :=
-  match l with [] => True | h :: r => Forall (iv_disj h) r /\ pw_disj r end.
-Definition sum_len (l : list iv) : Z := fold_right (fun h a => snd h + a) 0 l.
-Definition covered (l : list iv) (i : Z) : Prop := exists h, In h l /\ fst h <= i < fst h + snd h.
 
 Lemma sum_len_app : forall l1 l2, sum_len (l1 ++ l2) = sum_len l1 + sum_len l2.
 Proof.
@@ -831,16 +770,6 @@ Proof.
     apply IH; try assumption; lia.
 Qed.
 
-(* ---- the reassembly invariant of a DTLS session *)
-Definition inv_dtls (fr : frag) : Prop :=
-  fr_index fr = 0 /\
-  (fr_total fr = 0 -> fr_hdrs fr = []) /\
-  (fr_total fr <> 0 ->
-     exists m, fr_msg fr = Some m /\ lenZ m = fr_stored fr /\ fr_stored fr <= c_hsLenMax /\
-       Forall (fun h => 0 <= fst h /\ 0 < snd h /\ fst h + snd h <= fr_stored fr) (fr_hdrs fr) /\
-       pw_disj (fr_hdrs fr) /\ fr_total fr = sum_len (fr_hdrs fr) /\
-       lenZ (fr_hdrs fr) <= c_MAX_FRAGMENTS /\
-       (forall i, 0 <= i -> (written m i <-> covered (fr_hdrs fr) i))).
 
 Lemma inv_dtls_init : forall fr, fr_index fr = 0 -> inv_dtls (init_frag fr).
 Proof. intros fr H. unfold inv_dtls, init_frag; cbn. split; [exact H|]. split; [reflexivity | intros C; contradiction]. Qed.
@@ -1046,3 +975,382 @@ Proof.
   eapply Forall_impl; [|exact Hf]. cbn beta. unfold iv_in. intros; lia.
 Qed.
 
+(* ---- the code as found *)
+Definition od_accept_all : orcd := {| d_gate := fun _ _ _ _ => GProceed; d_parse := fun hs _ _ => (0, 0, hs) |}.
+Definition hsd_fresh : hsd := {| g_frag := frag_none; g_hs := c_SSL_HS_SERVER_HELLO; g_last_msn := -1; g_log := []; g_hashed := [] |}.
+Lemma hsd_fresh_inv : inv_dtls (g_frag hsd_fresh).
+Proof. split; [reflexivity|]. split; [reflexivity | intros C; exfalso; apply C; reflexivity]. Qed.
+
+(* (1) fragment_length = 59000 with 10 bytes in the record: the Memcpy source runs past `end` *)
+Definition fraglen_witness : bytes := [2; 0; 234; 96; 0; 0; 0; 0; 0; 0; 230; 120; 0; 17; 34; 51; 68; 85; 102; 119; 136; 153]%N.
+Lemma dtls_as_found_fraglen_faults : hs_record_dtls 30 as_found od_accept_all hsd_fresh fraglen_witness 22 = Fault.
+Proof. vm_compute. reflexivity. Qed.
+Lemma dtls_fixed_fraglen_rejected :
+  hs_record_dtls 30 all_fixed od_accept_all hsd_fresh fraglen_witness 22 = Ok (hsd_fresh, HsErr c_SSL_ALERT_DECODE_ERROR).
+Proof. vm_compute. reflexivity. Qed.
+
+(* (2) fragments (0,10) and (5,5) of a 15-byte message: fragTotal reaches 15 with bytes 10..14 never written;
+       handing the message to the hash / parser reads them *)
+Definition ovl_a : bytes := [2; 0; 0; 15; 0; 0; 0; 0; 0; 0; 0; 10; 1; 2; 3; 4; 5; 6; 7; 8; 9; 10]%N.
+Definition ovl_b : bytes := [2; 0; 0; 15; 0; 0; 0; 0; 5; 0; 0; 5; 6; 7; 8; 9; 10]%N.
+Definition st_of (r : res (hsd * hs_out)) : hsd := match r with Ok (s, _) => s | _ => hsd_fresh end.
+Definition ovl_st1 : hsd := Eval vm_compute in st_of (hs_record_dtls 30 as_found od_accept_all hsd_fresh ovl_a 22).
+Lemma dtls_as_found_overlap_reads_unwritten :
+  hs_record_dtls 30 as_found od_accept_all hsd_fresh ovl_a 22 = Ok (ovl_st1, HsRet c_MATRIXSSL_SUCCESS) /\
+  hs_record_dtls 30 as_found od_accept_all ovl_st1 ovl_b 17 = Fault.
+Proof. split; vm_compute; reflexivity. Qed.
+Definition ovl_fx1 : hsd := Eval vm_compute in st_of (hs_record_dtls 30 all_fixed od_accept_all hsd_fresh ovl_a 22).
+Definition ovl_fx2 : hsd := Eval vm_compute in st_of (hs_record_dtls 30 all_fixed od_accept_all ovl_fx1 ovl_b 17).
+Lemma dtls_fixed_overlap_ignored :
+  hs_record_dtls 30 all_fixed od_accept_all hsd_fresh ovl_a 22 = Ok (ovl_fx1, HsRet c_MATRIXSSL_SUCCESS) /\
+  hs_record_dtls 30 all_fixed od_accept_all ovl_fx1 ovl_b 17 = Ok (ovl_fx2, HsRet c_MATRIXSSL_SUCCESS) /\
+  fr_total (g_frag ovl_fx2) = 10 /\ g_log ovl_fx2 = [].
+Proof. repeat split; vm_compute; reflexivity. Qed.
+
+(* (3) fragments (0,5), (5,0), (1,5) of a 10-byte message: dtlsHsHashFragMsg finds the empty fragment at
+       nextOffset = 5 again and again *)
+Definition zero_hdrs : list (Z * Z) := [(0, 5); (5, 0); (1, 5)].
+Lemma hash_loop_as_found_spins : forall m, 5 <= lenZ m -> forall fuel acc,
+  hash_frag_loop fuel zero_hdrs m 0 5 10 10 acc = OutOfFuel /\ hash_frag_loop fuel zero_hdrs m 1 5 10 10 acc = OutOfFuel.
+Proof.
+  intros m Hm. induction fuel as [|f IH]; intros acc; [split; reflexivity|].
+  assert (S0 : slicef m 5 0 = Ok []).
+  { unfold slicef. replace (5 + 0 <=? lenZ m) with true by (symmetry; apply Z.leb_le; lia). reflexivity. }
+  split; cbn [hash_frag_loop]; change c_MAX_FRAGMENTS with 16.
+  - change (0 <? 16) with true. change (nth_error zero_hdrs (Z.to_nat 0)) with (Some (0, 5)).
+    change (0 =? 5) with false. change (negb (5 =? 0) && (5 =? 10)) with false. cbv iota beta. change (0 + 1) with 1. apply IH.
+  - change (1 <? 16) with true. change (nth_error zero_hdrs (Z.to_nat 1)) with (Some (5, 0)).
+    change (5 =? 5) with true. cbv iota beta. rewrite S0. cbn [bind]. change (5 + 0) with 5.
+    change (5 =? 0) with false. cbv iota. apply IH.
+Qed.
+Definition zero_a : bytes := [2; 0; 0; 10; 0; 0; 0; 0; 0; 0; 0; 5; 1; 2; 3; 4; 5]%N.
+Definition zero_b : bytes := [2; 0; 0; 10; 0; 0; 0; 0; 5; 0; 0; 0]%N.
+Definition zero_c : bytes := [2; 0; 0; 10; 0; 0; 0; 0; 1; 0; 0; 5; 2; 3; 4; 5; 6]%N.
+Definition zero_st1 : hsd := Eval vm_compute in st_of (hs_record_dtls 30 as_found od_accept_all hsd_fresh zero_a 17).
+Definition zero_st2 : hsd := Eval vm_compute in st_of (hs_record_dtls 30 as_found od_accept_all zero_st1 zero_b 12).
+Lemma dtls_as_found_zero_fragment_hangs :
+  hs_record_dtls 30 as_found od_accept_all hsd_fresh zero_a 17 = Ok (zero_st1, HsRet c_MATRIXSSL_SUCCESS) /\
+  hs_record_dtls 30 as_found od_accept_all zero_st1 zero_b 12 = Ok (zero_st2, HsRet c_MATRIXSSL_SUCCESS) /\
+  fr_hdrs (g_frag zero_st2) ++ [(1, 5)] = zero_hdrs /\
+  hs_record_dtls 30 as_found od_accept_all zero_st2 zero_c 17 = OutOfFuel.
+Proof. repeat split; vm_compute; reflexivity. Qed.
+
+
+
+
+
+
+Lemma set_in_ok : forall a inlen insize, abuf_ok a -> 0 <= inlen -> inlen <= insize -> insize <= MAXB -> abuf_ok (set_in a inlen insize).
+Proof. intros a i s (A & B & C & D & E & F & G) H1 H2 H3. unfold abuf_ok, set_in; cbn. repeat split; lia. Qed.
+
+Lemma revert_in_ok : forall r a, abuf_ok a -> abuf_ok (revert_in r a) /\ a_inlen (revert_in r a) = a_inlen a /\
+                                 a_insize (revert_in r a) <= a_insize a.
+Proof.
+  intros r a H. unfold revert_in.
+  destruct ((a_insize a >? a_default a) && (a_inlen a <? a_default a) && r) eqn:E; [|split; [exact H | split; [reflexivity | lia]]].
+  b2p. pose proof H as (A & B & C & D & E' & F & G). split; [|cbn; split; [reflexivity | lia]].
+  apply set_in_ok; try assumption; lia.
+Qed.
+
+Lemma doc_small : forall rc, c_MATRIXSSL_SUCCESS <= rc <= c_MATRIXSSL_APP_DATA_COMPRESSED -> doc_rc rc.
+Proof. intros; left; assumption. Qed.
+Ltac doc_pos := apply doc_small; vm_compute; split; congruence.
+Ltac doc_named := right; unfold doc_neg; tauto.
+Ltac no_pd := let HH := fresh "HH" in intros [HH|HH]; vm_compute in HH; discriminate.
+
+
+Lemma pd_ok_trivial : forall a, a_inlen a = 0 -> pd_ok a.
+Proof. intros a H C. lia. Qed.
+
+Theorem recv_loop_ok : forall fuel dec rok k a,
+  (forall k a, abuf_ok a -> dec_contract a (dec k a 0)) ->
+  abuf_ok a -> a_inlen a + (MAXB - a_insize a) < Z.of_nat fuel ->
+  exists r, recv_loop fuel dec rok k a 0 = Ok r /\ ret_post r.
+Proof.
+  induction fuel as [|f IH]; intros dec rok k a HC Ha HF; [pose proof Ha as (A & B & C & _); lia|].
+  pose proof Ha as (A & B & C & D & E & F & G).
+  pose proof (HC k a Ha) as (C1 & C2 & C3 & C4).
+  cbn [recv_loop]. set (d := dec k a 0) in *.
+  assert (FIN : forall rcv a' p, abuf_ok a' -> doc_rc rcv -> rcv <> c_MATRIXSSL_APP_DATA -> rcv <> c_MATRIXSSL_RECEIVED_ALERT ->
+            exists r, Ok (ARet rcv (if p : bool then a' else revert_in (rok k) a')) = Ok r /\ ret_post r).
+  { intros rcv a' p Ha' Hd N1 N2. eexists; split; [reflexivity|]. cbn [ret_post].
+    split; [destruct p; [exact Ha' | apply revert_in_ok; exact Ha']|]. split; [exact Hd|]. intros [?|?]; contradiction. }
+  destruct ((dr_rc d =? c_MATRIXSSL_SUCCESS) || (a_dtls a && (dr_rc d =? c_DTLS_RETRANSMIT))) eqn:R1.
+  { assert (Hm : 0 <= dr_moved d <= a_inlen a /\ (dr_moved d < a_inlen a -> 1 <= dr_moved d)).
+    { apply C1. b2p. destruct R1 as [R1|R1]; b2p; auto. }
+    destruct Hm as (M1 & M2).
+    assert (Ha1 : abuf_ok (set_in a (a_inlen a - dr_moved d) (a_insize a))) by (apply set_in_ok; try assumption; lia).
+    destruct (a_inlen a - dr_moved d >? 0) eqn:R2.
+    - b2p. unfold move_in.
+      replace ((0 <=? a_inlen a - dr_moved d) && (0 <=? 0) && (0 <=? 0 + dr_moved d) &&
+               (0 + (a_inlen a - dr_moved d) <=? a_insize a) && (0 + dr_moved d + (a_inlen a - dr_moved d) <=? a_insize a)) with true.
+      2:{ symmetry. repeat (apply andb_true_iff; split); apply Z.leb_le; lia. }
+      cbn [bind]. apply IH; [exact HC | exact Ha1|]. cbn [set_in a_inlen a_insize]. lia.
+    - destruct (dr_rc d =? c_DTLS_RETRANSMIT).
+      { eexists; split; [reflexivity|]. cbn [ret_post]. split; [exact Ha1|]. split; [doc_pos|]. no_pd. }
+      destruct (negb (a_hs_complete_flag a)).
+      { destruct (dr_done d).
+        - apply (FIN _ _ false); [| doc_pos | vm_compute; discriminate | vm_compute; discriminate].
+          unfold abuf_ok; cbn. b2p. repeat split; lia.
+        - apply (FIN _ _ false); [exact Ha1 | doc_pos | vm_compute; discriminate | vm_compute; discriminate]. }
+      destruct (a_tls13 a).
+      + destruct (dr_done d); (apply (FIN _ _ false); [exact Ha1 | | vm_compute; discriminate | vm_compute; discriminate]); [doc_pos | doc_named].
+      + apply (FIN _ _ false); [exact Ha1 | doc_pos | vm_compute; discriminate | vm_compute; discriminate]. }
+  destruct (dr_rc d =? c_SSL_SEND_RESPONSE) eqn:R3.
+  { b2p. destruct (C2 R3) as (M1 & M2 & M3).
+    destruct (a_false_start a && negb (dr_moved d =? 0)).
+    - unfold move_in.
+      replace ((0 <=? a_inlen a - dr_moved d) && (0 <=? 0) && (0 <=? 0 + dr_moved d) &&
+               (0 + (a_inlen a - dr_moved d) <=? a_insize a) && (0 + dr_moved d + (a_inlen a - dr_moved d) <=? a_insize a)) with true.
+      2:{ symmetry. repeat (apply andb_true_iff; split); apply Z.leb_le; lia. }
+      cbn [bind]. eexists; split; [reflexivity|]. cbn [ret_post].
+      split; [apply set_in_ok; try assumption; lia|]. split; [doc_pos|]. no_pd.
+    - destruct (a_outlen a >? 0) eqn:R4.
+      + b2p. specialize (M3 ltac:(lia)).
+        destruct ((a_outlen a + dr_len d >? a_outsize a) && negb (rok k)) eqn:R5.
+        { eexists; split; [reflexivity|]. cbn [ret_post]. split; [apply set_in_ok; try assumption; lia|]. split; [doc_named|].
+          no_pd. }
+        set (outsize := if a_outlen a + dr_len d >? a_outsize a then a_outlen a + dr_len d else a_outsize a).
+        assert (Ho : a_outlen a + dr_len d <= outsize /\ outsize <= MAXB /\ a_outsize a <= outsize).
+        { unfold outsize. destruct (a_outlen a + dr_len d >? a_outsize a) eqn:R6; b2p; lia. }
+        unfold move_in.
+        replace ((0 <=? dr_len d) && (0 <=? 0) && (0 <=? 0) && (0 + dr_len d <=? a_insize a) && (0 + dr_len d <=? a_insize a)) with true.
+        2:{ symmetry. repeat (apply andb_true_iff; split); apply Z.leb_le; lia. }
+        cbn [bind].
+        replace ((0 <=? dr_len d) && (0 <=? a_outlen a) && (0 <=? a_outlen a) && (a_outlen a + dr_len d <=? outsize) &&
+                 (a_outlen a + dr_len d <=? outsize)) with true.
+        2:{ symmetry. repeat (apply andb_true_iff; split); apply Z.leb_le; lia. }
+        cbn [bind]. apply (FIN _ _ false); [| doc_pos | vm_compute; discriminate | vm_compute; discriminate].
+        unfold abuf_ok; cbn. repeat split; lia.
+      + b2p. apply (FIN _ _ false); [| doc_pos | vm_compute; discriminate | vm_compute; discriminate].
+        unfold abuf_ok; cbn. repeat split; lia. }
+  destruct (dr_rc d =? c_MATRIXSSL_ERROR) eqn:R6.
+  { b2p. eexists; split; [reflexivity|]. cbn [ret_post]. split; [exact Ha|]. split; [right; apply C4; exact R6|].
+    pose proof (C4 R6) as Hn. intros [HH|HH]; rewrite HH in Hn; unfold doc_neg in Hn; vm_compute in Hn;
+      repeat (destruct Hn as [Hn|Hn]; [discriminate|]); discriminate. }
+  destruct (dr_rc d =? c_SSL_ALERT) eqn:R7.
+  { b2p. destruct (C3 (or_introl R7)) as (M1 & M2).
+    eexists; split; [reflexivity|]. cbn [ret_post]. split; [unfold abuf_ok; cbn; repeat split; lia|].
+    split; [doc_pos|]. intros _. unfold pd_ok; cbn. intros; lia. }
+  destruct (dr_rc d =? c_SSL_PARTIAL) eqn:R8.
+  { destruct (dr_req d >? c_SSL_MAX_BUF_SIZE) eqn:R9.
+    { eexists; split; [reflexivity|]. cbn [ret_post]. split; [exact Ha|]. split; [doc_named|]. no_pd. }
+    b2p. destruct (dr_req d >? a_insize a) eqn:R10.
+    - destruct (rok k).
+      + b2p. apply (FIN _ _ true); [apply set_in_ok; try assumption; unfold MAXB; lia | doc_pos | vm_compute; discriminate | vm_compute; discriminate].
+      + eexists; split; [reflexivity|]. cbn [ret_post]. split; [exact Ha|]. split; [doc_named|]. no_pd.
+    - apply (FIN _ _ true); [exact Ha | doc_pos | vm_compute; discriminate | vm_compute; discriminate]. }
+  destruct (dr_rc d =? c_SSL_FULL) eqn:R11.
+  { destruct (dr_req d >? c_SSL_MAX_BUF_SIZE) eqn:R9.
+    { eexists; split; [reflexivity|]. cbn [ret_post]. split; [exact Ha|]. split; [doc_named|]. no_pd. }
+    b2p. destruct (dr_req d >? a_insize a) eqn:R10.
+    - b2p. destruct (rok k).
+      + apply IH; [exact HC | apply set_in_ok; try assumption; unfold MAXB; lia|]. cbn [set_in a_inlen a_insize]. unfold MAXB in *. lia.
+      + eexists; split; [reflexivity|]. cbn [ret_post]. split; [apply set_in_ok; try assumption; lia|]. split; [doc_named|].
+        no_pd.
+    - eexists; split; [reflexivity|]. cbn [ret_post]. split; [apply set_in_ok; try assumption; lia|]. split; [doc_named|].
+      no_pd. }
+  destruct (dr_rc d =? c_SSL_PROCESS_DATA) eqn:R12.
+  { b2p. destruct (C3 (or_intror R12)) as (M1 & M2).
+    eexists; split; [reflexivity|]. cbn [ret_post]. split; [unfold abuf_ok; cbn; repeat split; lia|].
+    split; [doc_pos|]. intros _. unfold pd_ok; cbn. intros; lia. }
+  apply (FIN _ _ false); [exact Ha | doc_named | vm_compute; discriminate | vm_compute; discriminate].
+Qed.
+
+Theorem received_data_ok : forall dec rok k a n,
+  (forall k a, abuf_ok a -> dec_contract a (dec k a 0)) ->
+  abuf_ok a -> 0 <= n <= snd (get_readbuf a) ->
+  exists r, received_data dec rok k a n = Ok r /\ ret_post r.
+Proof.
+  intros dec rok k a n HC Ha Hn. pose proof Ha as (A & B & C & D & E & F & G).
+  unfold received_data, app_write, get_readbuf in *. cbn [snd] in Hn.
+  replace ((0 <=? n) && (n <=? a_insize a - a_inlen a)) with true by (symmetry; apply andb_true_iff; split; apply Z.leb_le; lia).
+  unfold move_in.
+  replace ((0 <=? n) && (0 <=? a_inlen a) && (0 <=? a_inlen a) && (a_inlen a + n <=? a_insize a) && (a_inlen a + n <=? a_insize a)) with true.
+  2:{ symmetry. repeat (apply andb_true_iff; split); apply Z.leb_le; lia. }
+  cbn [bind].
+  assert (Ha1 : abuf_ok (set_in a (a_inlen a + n) (a_insize a))) by (apply set_in_ok; try assumption; lia).
+  destruct (a_inlen (set_in a (a_inlen a + n) (a_insize a)) =? 0) eqn:E0.
+  - b2p. eexists; split; [reflexivity|]. cbn [ret_post]. split; [exact Ha1|]. split; [doc_pos | no_pd].
+  - apply recv_loop_ok; [exact HC | exact Ha1|]. unfold recv_fuel. cbn [set_in a_inlen a_insize]. fold MAXB. lia.
+Qed.
+
+Theorem processed_data_ok : forall dec rok k a hs_done,
+  (forall k a, abuf_ok a -> dec_contract a (dec k a 0)) ->
+  abuf_ok a -> pd_ok a ->
+  exists r, processed_data dec rok k a hs_done = Ok r /\ ret_post r.
+Proof.
+  intros dec rok k a hs_done HC Ha Hp. pose proof Ha as (A & B & C & D & E & F & G).
+  unfold processed_data.
+  assert (MV : (if a_inlen a >? 0 then move_in (a_insize a) 0 (a_ctlen a) (a_inlen a) else Ok tt) = Ok tt).
+  { destruct (a_inlen a >? 0) eqn:E0; [|reflexivity]. b2p. destruct (Hp ltac:(lia)) as (P1 & P2). unfold move_in.
+    replace ((0 <=? a_inlen a) && (0 <=? 0) && (0 <=? a_ctlen a) && (0 + a_inlen a <=? a_insize a) && (a_ctlen a + a_inlen a <=? a_insize a)) with true; [reflexivity|].
+    symmetry. repeat (apply andb_true_iff; split); apply Z.leb_le; lia. }
+  rewrite MV. cbn [bind].
+  destruct (revert_in_ok (rok k) a Ha) as (Hr & Hrl & Hrs).
+  destruct (a_inlen (revert_in (rok k) a) >? 0) eqn:E1.
+  - apply recv_loop_ok; [exact HC | exact Hr|]. unfold recv_fuel. fold MAXB. pose proof Hr as (? & ? & ? & _). lia.
+  - destruct (a_outlen (revert_in (rok k) a) >? 0); [|destruct (negb hs_done)];
+      (eexists; split; [reflexivity|]); cbn [ret_post]; (split; [exact Hr|]); (split; [doc_pos | no_pd]).
+Qed.
+
+(* ================================================================== (e) CBC pad / MAC layout *)
+Theorem cbc_layout_in_range : forall rec_len mac_size block_size pad_len eiv ssl3 pe,
+  0 <= mac_size -> 0 < block_size -> 0 <= pad_len <= 255 ->
+  let l := cbc_mac_layout rec_len mac_size block_size pad_len eiv ssl3 pe in
+  cl_sane l = true ->
+  0 <= cl_data_off l /\ cl_data_off l <= cl_mac_off l /\ cl_mac_off l + mac_size <= rec_len /\
+  cl_data_len l = cl_mac_off l - cl_data_off l /\
+  (cl_mac_error l = false -> 0 <= cl_pad_lo l /\ cl_mac_off l + mac_size = cl_pad_lo l /\ cl_pad_lo l + pad_len + 1 = rec_len).
+Proof.
+  intros rec_len mac_size block_size pad_len eiv ssl3 pe Hm Hb Hp. unfold cbc_mac_layout.
+  destruct eiv; destruct (rec_len <? _) eqn:E0; cbn [cl_sane]; try discriminate; intros _; b2p;
+    cbn [cl_data_off cl_mac_off cl_data_len cl_mac_error cl_pad_lo];
+    match goal with |- context [if ?c then _ else _] => destruct c eqn:E1 end; b2p;
+    repeat split; try lia; try discriminate;
+    try (destruct E1 as [E1|E1]; b2p; lia).
+Qed.
+
+
+(* the code as found: whatever length a TLS 1.3 handshake header announces (up to 2^24 - 1, i.e. 16 MB) is allocated *)
+Lemma parse_msg13_as_found_unbounded : forall o st b lim t hl,
+  fr_msg (t_frag st) = None -> 4 <= lim -> lim <= lenZ b -> rd b lim 0 = Ok t -> be24 b lim 1 = Ok hl -> lim - 4 < hl ->
+  exists st', parse_msg13 as_found o st b 0 lim = Ok (st', MPartial lim) /\ fr_total (t_frag st') = hl + 4.
+Proof.
+  intros o st b lim t hl Hn H4 Hl Ht Hh Hlt. unfold parse_msg13. rewrite Hn.
+  change c_TLS_HS_HDR_LEN with 4.
+  replace (lim - 0 <? 4) with false by (symmetry; apply Z.ltb_ge; lia).
+  rewrite Ht. cbn [bind]. change (0 + 1) with 1. rewrite Hh. cbn [bind]. cbn [fx_hslen13 as_found andb].
+  replace (lim - (0 + 4) <? hl) with true by (symmetry; apply Z.ltb_lt; lia).
+  destruct (first_fragment_ok b lim 0 (lim - 0) (hl + 4)) as (src & m & Hsrc & Hm & _ & _); try lia.
+  rewrite Hsrc. cbn [bind]. rewrite Hm. cbn [bind]. eexists; split; [reflexivity | reflexivity].
+Qed.
+Lemma parse_msg13_fixed_bounded :
+  parse_msg13 all_fixed o13_accept_all hs13_fresh [2; 255; 255; 255; 1]%N 0 5 = Ok (hs13_fresh, MAlert c_SSL_ALERT_DECODE_ERROR 0).
+Proof. vm_compute. reflexivity. Qed.
+
+(* ================================================================== statements of Properties_C08.v that need glue *)
+Lemma p_c08_hdr_no_fault : forall x b c lim,
+  wf_d x -> 0 <= c -> c <= lim -> lim <= lenZ b ->
+  exists s, decode12 (S (Z.to_nat (lim - c))) all_fixed x b c lim = Ok s /\ stage_post c lim s.
+Proof. intros; apply decode12_ok; auto; lia. Qed.
+
+Lemma p_c08_hdr13_no_fault : forall outp b lim,
+  0 <= lim -> lim <= lenZ b -> lim <= c_SSL_MAX_BUF_SIZE ->
+  exists s, hdr13 (S (Z.to_nat lim)) all_fixed outp b 0 0 lim = Ok s /\ stage13_post 0 lim s.
+Proof. intros; apply hdr13_ok; auto; lia. Qed.
+
+Lemma p_c08_hdr_epoch_skip_refuted :
+  wf_d dtls_client_awaiting_hello /\
+  decode12 10 as_found dtls_client_awaiting_hello epoch_skip_witness 0 15 = Fault /\
+  (exists x, decode12 10 as_found dtls_client_awaiting_hello epoch_skip_witness2 0 27 = Ok (SRet c_DTLS_RETRANSMIT 65562 x) /\ 27 < 65562).
+Proof. exact (conj witness_ctx_wf (conj decode12_as_found_faults decode12_as_found_overruns)). Qed.
+
+Lemma p_c08_frag_tls13_no_fault : forall o st b p lim decrypted trailer,
+  inv_tls (t_frag st) -> 0 <= p -> p <= lim -> lim <= lenZ b -> 0 <= trailer ->
+  exists st' r, hs13_loop (S (Z.to_nat (lim - p))) all_fixed o st b p p lim decrypted trailer = Ok (st', r) /\
+                inv_tls (t_frag st') /\ out13_post p lim trailer decrypted r.
+Proof. intros; apply hs13_loop_ok; auto; lia. Qed.
+
+Lemma p_c08_frag_tls13_refuted :
+  (forall fuel st, fr_msg (t_frag st) = None ->
+     hs13_loop fuel as_found o13_accept_all st msg_then_stray 0 5 6 false 17 = OutOfFuel) /\
+  (exists st, hs13_loop 10 as_found o13_accept_all hs13_fresh msg_then_partial 0 0 10 false 17 = Ok (st, ORet c_MATRIXSSL_SUCCESS 27) /\ 10 < 27) /\
+  (forall o st b lim t hl, fr_msg (t_frag st) = None -> 4 <= lim -> lim <= lenZ b -> rd b lim 0 = Ok t -> be24 b lim 1 = Ok hl ->
+     lim - 4 < hl -> exists st', parse_msg13 as_found o st b 0 lim = Ok (st', MPartial lim) /\ fr_total (t_frag st') = hl + 4).
+Proof.
+  exact (conj (fun fuel => proj2 (hs13_loop_as_found_spins fuel)) (conj hs13_loop_as_found_overruns parse_msg13_as_found_unbounded)).
+Qed.
+
+Lemma p_c08_frag_dtls_refuted :
+  inv_dtls (g_frag hsd_fresh) /\
+  hs_record_dtls 30 as_found od_accept_all hsd_fresh fraglen_witness 22 = Fault /\
+  (hs_record_dtls 30 as_found od_accept_all hsd_fresh ovl_a 22 = Ok (ovl_st1, HsRet c_MATRIXSSL_SUCCESS) /\
+   hs_record_dtls 30 as_found od_accept_all ovl_st1 ovl_b 17 = Fault) /\
+  (forall m, 5 <= lenZ m -> forall fuel acc, hash_frag_loop fuel zero_hdrs m 0 5 10 10 acc = OutOfFuel) /\
+  hs_record_dtls 30 as_found od_accept_all zero_st2 zero_c 17 = OutOfFuel.
+Proof.
+  exact (conj hsd_fresh_inv (conj dtls_as_found_fraglen_faults (conj dtls_as_found_overlap_reads_unwritten
+        (conj (fun m H fuel acc => proj1 (hash_loop_as_found_spins m H fuel acc))
+              (proj2 (proj2 (proj2 dtls_as_found_zero_fragment_hangs))))))).
+Qed.
+
+Lemma p_c08_bounds_inv : forall dec rok k a n,
+  (forall k a, abuf_ok a -> dec_contract a (dec k a 0)) ->
+  abuf_ok a -> 0 <= n <= snd (get_readbuf a) ->
+  exists rc a', received_data dec rok k a n = Ok (ARet rc a') /\ abuf_ok a' /\
+                0 <= a_inlen a' /\ a_inlen a' <= a_insize a' /\ a_insize a' <= c_SSL_MAX_BUF_SIZE.
+Proof.
+  intros dec rok k a n HC Ha Hn. destruct (received_data_ok dec rok k a n HC Ha Hn) as ([rc a'] & Hr & Hok & _).
+  exists rc, a'. split; [exact Hr|]. split; [exact Hok|]. destruct Hok as (A & B & C & _). auto.
+Qed.
+
+Lemma p_c08_bounds_inv_processed : forall dec rok k a hs_done,
+  (forall k a, abuf_ok a -> dec_contract a (dec k a 0)) -> abuf_ok a -> pd_ok a ->
+  exists rc a', processed_data dec rok k a hs_done = Ok (ARet rc a') /\ abuf_ok a'.
+Proof.
+  intros dec rok k a h HC Ha Hp. destruct (processed_data_ok dec rok k a h HC Ha Hp) as ([rc a'] & Hr & Hok & _).
+  exists rc, a'. split; [exact Hr | exact Hok].
+Qed.
+
+Lemma p_c08_terminates : forall dec rok k a,
+  (forall k a, abuf_ok a -> dec_contract a (dec k a 0)) -> abuf_ok a ->
+  recv_loop (recv_fuel a) dec rok k a 0 <> OutOfFuel /\ recv_loop (recv_fuel a) dec rok k a 0 <> Fault.
+Proof.
+  intros dec rok k a HC Ha. destruct (recv_loop_ok (recv_fuel a) dec rok k a HC Ha) as (r & Hr & _).
+  - unfold recv_fuel. fold MAXB. destruct Ha as (? & ? & ? & _). lia.
+  - rewrite Hr. split; discriminate.
+Qed.
+
+Lemma p_c08_status_documented : forall dec rok k a n,
+  (forall k a, abuf_ok a -> dec_contract a (dec k a 0)) -> abuf_ok a -> 0 <= n <= snd (get_readbuf a) ->
+  exists rc a', received_data dec rok k a n = Ok (ARet rc a') /\ doc_rc rc /\
+                (rc = c_MATRIXSSL_APP_DATA \/ rc = c_MATRIXSSL_RECEIVED_ALERT -> pd_ok a').
+Proof.
+  intros dec rok k a n HC Ha Hn. destruct (received_data_ok dec rok k a n HC Ha Hn) as ([rc a'] & Hr & _ & Hd & Hp).
+  exists rc, a'. auto.
+Qed.
+
+(* ================================================================== non-vacuity: the hypotheses are satisfiable and
+   the fixed code does reassemble *)
+Example abuf_default_ok : abuf_ok {| a_inlen := 0; a_insize := 1500; a_outlen := 0; a_outsize := 1500; a_hs_complete_flag := false;
+                                      a_dtls := false; a_tls13 := false; a_false_start := false; a_default := 1500; a_ctlen := 0 |}.
+Proof. unfold abuf_ok, MAXB; cbn. repeat split; try lia; vm_compute; congruence. Qed.
+
+Definition dec_always_partial : nat -> abuf -> Z -> dret :=
+  fun _ _ _ => {| dr_rc := c_SSL_PARTIAL; dr_moved := 0; dr_len := 0; dr_req := 5; dr_err := 0; dr_alert := 255; dr_ctlen := 0; dr_done := false |}.
+Example dec_contract_satisfiable : forall k a, abuf_ok a -> dec_contract a (dec_always_partial k a 0).
+Proof.
+  intros k a _. unfold dec_contract, dec_always_partial; cbn [dr_rc].
+  split; [intros [HH|[_ HH]]; vm_compute in HH; discriminate|].
+  split; [intros HH; vm_compute in HH; discriminate|].
+  split; [intros [HH|HH]; vm_compute in HH; discriminate|].
+  intros HH; vm_compute in HH; discriminate.
+Qed.
+
+Example inv_tls_initial : inv_tls frag_none.
+Proof. exact I. Qed.
+
+(* two DTLS fragments (0,5) and (5,5) of a 10-byte message, in reverse order: the parser gets the 10 bytes *)
+Definition two_a : bytes := [2; 0; 0; 10; 0; 0; 0; 0; 5; 0; 0; 5; 6; 7; 8; 9; 10]%N.
+Definition two_b : bytes := [2; 0; 0; 10; 0; 0; 0; 0; 0; 0; 0; 5; 1; 2; 3; 4; 5]%N.
+Definition two_st1 : hsd := Eval vm_compute in st_of (hs_record_dtls 30 all_fixed od_accept_all hsd_fresh two_a 17).
+Definition two_st2 : hsd := Eval vm_compute in st_of (hs_record_dtls 30 all_fixed od_accept_all two_st1 two_b 17).
+Example dtls_fixed_reassembles :
+  hs_record_dtls 30 all_fixed od_accept_all two_st1 two_b 17 = Ok (two_st2, HsRet 0) /\
+  g_log two_st2 = [(2, [2; 0; 0; 10; 0; 0; 0; 0; 0; 0; 0; 5; 1; 2; 3; 4; 5; 6; 7; 8; 9; 10]%N)] /\
+  g_hashed two_st2 = [[[1; 2; 3; 4; 5]; [6; 7; 8; 9; 10]]%N] /\ fr_msg (g_frag two_st2) = None.
+Proof. repeat split; vm_compute; reflexivity. Qed.
+
+(* TLS: a ServerHello-like message cut after 6 of its 9 bytes, then the rest followed by another message *)
+Definition o12_accept_all : orc12 := {| o_gate := fun _ _ => GProceed; o_parse := fun hs _ body => (0, lenZ body, hs) |}.
+Definition hs12_fresh : hs12 := {| h_frag := frag_none; h_hs := c_SSL_HS_SERVER_HELLO; h_log := [] |}.
+Definition st12_of (r : res (hs12 * hs_out)) : hs12 := match r with Ok (s, _) => s | _ => hs12_fresh end.
+Definition cut_a : bytes := [2; 0; 0; 5; 1; 2]%N.
+Definition cut_b : bytes := [3; 4; 5; 14; 0; 0; 0]%N.
+Definition cut_st1 : hs12 := Eval vm_compute in st12_of (hs_record_tls 10 o12_accept_all hs12_fresh cut_a 6).
+Definition cut_st2 : hs12 := Eval vm_compute in st12_of (hs_record_tls 10 o12_accept_all cut_st1 cut_b 7).
+Example tls_fixed_reassembles :
+  fr_index (h_frag cut_st1) = 6 /\ fr_total (h_frag cut_st1) = 9 /\
+  h_log cut_st2 = [(2, [2; 0; 0; 5; 1; 2; 3; 4; 5]%N); (14, [14; 0; 0; 0]%N)] /\ fr_msg (h_frag cut_st2) = None.
+Proof. repeat split; vm_compute; reflexivity. Qed.
